@@ -1439,7 +1439,7 @@ package collection
 
 //@ iface NotationClassLike.Make
 //@   nopanic
-//@   ensures result != nil
+//@   ensures fresh(result) && result != nil
 
 // sequential reading; on a queue that this very call allocated (thread-confined: nobody else can remove)
 // the call must be provably non-blocking
